@@ -1306,9 +1306,77 @@ func (c *FnCtx) checkInvariants(st *State, ls *LoopSpec, ord int, phase string) 
 		c.obligeNamed(st, "inv", fmt.Sprintf("loop%d/inv#%d/%s", ord, i+1, phase), t, "invariant "+inv.Src, token.NoPos)
 	}
 	if c.autoFrame {
-		t := c.frameFormula(c.entry, st, c.entry.alloc, nil)
-		c.obligeNamed(st, "frame", fmt.Sprintf("loop%d/frame/%s", ord, phase), t, "memory allocated before the call is unchanged (assigns nothing)", token.NoPos)
+		t := c.frameFormula(c.entry, st, c.entry.alloc, c.frameExcept)
+		c.obligeNamed(st, "frame", fmt.Sprintf("loop%d/frame/%s", ord, phase), t, "memory allocated before the call is unchanged (assigns clause)", token.NoPos)
 	}
+}
+
+// useLemma assumes an instance of a separately proved lemma: requires(args) ==> ensures(args).
+func (c *FnCtx) useLemma(st *State, cl *Clause) {
+	call, ok := cl.Expr.(*ast.CallExpr)
+	var qvars []string
+	var qnames []string
+	for ok {
+		// forall k: lemma(...)  (rewritten to forallint(k, lemma(...)))
+		id, isId := call.Fun.(*ast.Ident)
+		if !isId || id.Name != "forallint" || len(call.Args) != 2 {
+			break
+		}
+		qn := call.Args[0].(*ast.Ident).Name
+		c.nfresh++
+		qnames = append(qnames, qn)
+		qvars = append(qvars, fmt.Sprintf("%s?%d", qn, c.nfresh))
+		call, ok = call.Args[1].(*ast.CallExpr)
+	}
+	if !ok {
+		c.unsupported = append(c.unsupported, "use clause is not a lemma application: "+cl.Src)
+		return
+	}
+	name := ""
+	if id, ok := call.Fun.(*ast.Ident); ok {
+		name = id.Name
+	}
+	var lem *FuncSpec
+	var key string
+	for k, fs := range c.eng.contracts.Funcs {
+		if fs.IsLemma && fs.Key == "lemma."+name {
+			lem, key = fs, k
+		}
+	}
+	if lem == nil {
+		c.unsupported = append(c.unsupported, "unknown lemma "+name)
+		return
+	}
+	c.deps[key] = true
+	sc := c.specScopeAt(st)
+	sc.bound = map[string]bool{}
+	for i, qn := range qnames {
+		sc.vars[qn] = vInt(qvars[i])
+		sc.bound[qn] = true
+	}
+	inst := &SpecScope{c: c, cur: st, old: c.entry, vars: map[string]Val{}, bound: sc.bound}
+	for i, pn := range lem.Params {
+		if i < len(call.Args) {
+			inst.vars[pn] = sc.eval(call.Args[i])
+		}
+	}
+	pre := "true"
+	for _, r := range lem.Requires {
+		pre = sAnd(pre, inst.boolOf(r.Expr))
+	}
+	post := "true"
+	for _, e := range lem.Ensures {
+		post = sAnd(post, inst.boolOf(e.Expr))
+	}
+	f := sImp(pre, post)
+	if len(qvars) > 0 {
+		var bs []string
+		for _, q := range qvars {
+			bs = append(bs, "("+q+" Int)")
+		}
+		f = fmt.Sprintf("(forall (%s) %s)", strings.Join(bs, " "), f)
+	}
+	c.assume(st, f)
 }
 
 func (c *FnCtx) assumeInvariants(st *State, ls *LoopSpec) {
@@ -1317,9 +1385,12 @@ func (c *FnCtx) assumeInvariants(st *State, ls *LoopSpec) {
 			sc := c.specScopeAt(st)
 			c.assume(st, sc.boolOf(inv.Expr))
 		}
+		for _, u := range ls.Uses {
+			c.useLemma(st, u)
+		}
 	}
 	if c.autoFrame {
-		c.assume(st, c.frameFormula(c.entry, st, c.entry.alloc, nil))
+		c.assume(st, c.frameFormula(c.entry, st, c.entry.alloc, c.frameExcept))
 	}
 }
 
